@@ -944,6 +944,19 @@ pub struct ServerPool {'''),
     dict(id="c13-bare-value-group-not-read", prop="C13", file="src/query_router.rs", expect="C13-R1",
          what="only the quoted value group is read: bare values are lost",
          old="""captures.get(1).or_else(|| captures.get(2))""", new="""captures.get(1)"""),
+    dict(id="c14-failed-rebuild-keeps-new-config", prop="C14", file="src/config.rs", expect="C14-R2",
+         what="a failed rebuild leaves the new file published as CONFIG (D44 again)",
+         old="""            CONFIG.store(Arc::new(old_config));
+            return Err(err);""", new="""            return Err(err);"""),
+    dict(id="c14-restore-without-failure", prop="C14", file="src/config.rs", expect="C14-R1",
+         what="reload_config puts the old configuration back although the rebuild succeeded",
+         old="""            CONFIG.store(Arc::new(old_config));
+            return Err(err);
+        }
+        Ok(true)""", new="""            return Err(err);
+        }
+        CONFIG.store(Arc::new(old_config));
+        Ok(true)"""),
     # ------------------------------------------------------------------ C17
     dict(id="c17-shutdown-checked-in-transaction", prop="C17", file="src/client.rs", expect="C17-R1",
          what="the transaction loop also reacts to the shutdown broadcast",
